@@ -26,6 +26,9 @@ func TestMain(m *testing.M) {
 	h.Main(m)
 }
 
+// maxLanes: one lane per bit of the machine word (64 on amd64/arm64, 32 on 386/arm).
+const maxLanes = curl.MaxBatchSize
+
 // An op of the history. All trit material is a deterministic function of drawn values
 // (Base, Mode, lane index), so a history is a small serialisable value.
 type op struct {
@@ -114,7 +117,7 @@ func checkHistory(hist history) (h.Info, error) {
 	for step, o := range hist.Ops {
 		where := fmt.Sprintf("step %d (%s inst %d)", step, o.Kind, o.Inst)
 		if o.Kind == "new" {
-			if o.N < 1 || o.N > 64 {
+			if o.N < 1 || o.N > maxLanes {
 				return h.Info{}, fmt.Errorf("PRECONDITION: batch size %d", o.N)
 			}
 			in := &inst{c: curl.NewCurlP81(), n: o.N}
@@ -186,7 +189,7 @@ func checkHistory(hist history) (h.Info, error) {
 			switch o.Dst {
 			case 1:
 				if in.dst == nil {
-					in.dst = make([]trinary.Trits, 64)
+					in.dst = make([]trinary.Trits, maxLanes)
 				}
 				dst = in.dst[:o.Lanes]
 			case 2:
@@ -274,7 +277,7 @@ func checkHistory(hist history) (h.Info, error) {
 			case "size0":
 				size = 0
 			case "size65":
-				size = 65
+				size = maxLanes + 1
 			case "length":
 				count = ref.Rate + 1 + o.Blocks // not a multiple of 243
 			default:
@@ -343,11 +346,11 @@ func genHistory(t *rapid.T) history {
 		case 1:
 			n = 2
 		case 2:
-			n = 63
+			n = maxLanes - 1
 		case 3:
-			n = 64
+			n = maxLanes
 		default:
-			n = rapid.IntRange(1, 64).Draw(t, "n")
+			n = rapid.IntRange(1, maxLanes).Draw(t, "n")
 		}
 		st = append(st, abs{n: n})
 		ops = append(ops, op{Kind: "new", Inst: len(st) - 1, N: n})
@@ -421,7 +424,7 @@ func TestHistories(t *testing.T) {
 		Prop: "C06", Name: "histories-" + buildVariant, N: 1600,
 		Gen: genHistory, Check: checkHistory,
 		Require: []string{"history/clone", "history/reset-reuse", "history/rejected-call", "history/split-absorb", "history/multi-block-squeeze", "history/caller-supplied-dst"},
-		Rule:    "histories of 2..12 calls over up to 4 instances (batch sizes weighted to 1, 2, 63, 64): Absorb of 0..3 blocks (equal lanes / single-trit differences / all lanes different, optionally split across calls), Squeeze of 0..3 blocks into 1..n lanes (dst: fresh, the caller's long-lived slice still holding earlier results that must stay intact, or adjacent windows of one buffer), Clone, Reset, rejected calls (batch size 0 / 65, length not a multiple of 243); after every step the bit-sliced state of every instance decoded lane by lane must equal n independent scalar Curl-P-81 sponges and squeezed output = the lane's own sponge; non-trivial = >= 1 absorbed block, >= 1 squeezed block and >= 2 different lanes; distinct by history",
+		Rule:    "histories of 2..12 calls over up to 4 instances (batch sizes weighted to 1, 2, W-1, W, where W = lanes per machine word of the build target: 64, or 32 for the GOARCH=386 variant): Absorb of 0..3 blocks (equal lanes / single-trit differences / all lanes different, optionally split across calls), Squeeze of 0..3 blocks into 1..n lanes (dst: fresh, the caller's long-lived slice still holding earlier results that must stay intact, or adjacent windows of one buffer), Clone, Reset, rejected calls (batch size 0 / W+1, length not a multiple of 243); after every step the bit-sliced state of every instance decoded lane by lane must equal n independent scalar Curl-P-81 sponges and squeezed output = the lane's own sponge; non-trivial = >= 1 absorbed block, >= 1 squeezed block and >= 2 different lanes; distinct by history",
 	})
 }
 
@@ -445,7 +448,7 @@ func checkConcurrent(c concCase) (h.Info, error) {
 	srcs := make([][]trinary.Trits, len(c.Jobs))
 	wants := make([][][]int8, len(c.Jobs))
 	for g, jb := range c.Jobs { // expectations from the scalar model, sequentially, beforehand
-		if jb.N < 1 || jb.N > 64 || len(jb.Base) != jb.Blocks*ref.Rate || jb.Squeeze < 1 {
+		if jb.N < 1 || jb.N > maxLanes || len(jb.Base) != jb.Blocks*ref.Rate || jb.Squeeze < 1 {
 			return info, fmt.Errorf("PRECONDITION: job")
 		}
 		for j := 0; j < jb.N; j++ {
@@ -492,7 +495,7 @@ func TestConcurrent(t *testing.T) {
 		Gen: func(t *rapid.T) concCase {
 			c := concCase{Iters: 150}
 			for i := h.OneOf(t, "g", 2, 4, 8); i > 0; i-- {
-				jb := job{N: h.OneOf(t, "n", 1, 2, 8, 64), Blocks: rapid.IntRange(1, 3).Draw(t, "b"), Mode: rapid.IntRange(0, 2).Draw(t, "mode"), Squeeze: rapid.IntRange(1, 2).Draw(t, "s")}
+				jb := job{N: h.OneOf(t, "n", 1, 2, 8, maxLanes), Blocks: rapid.IntRange(1, 3).Draw(t, "b"), Mode: rapid.IntRange(0, 2).Draw(t, "mode"), Squeeze: rapid.IntRange(1, 2).Draw(t, "s")}
 				jb.Base = make([]int8, jb.Blocks*ref.Rate)
 				seed := rapid.IntRange(0, 1<<30).Draw(t, "seed")
 				for x := range jb.Base {
@@ -508,7 +511,7 @@ func TestConcurrent(t *testing.T) {
 		},
 		Check:   checkConcurrent,
 		Require: []string{"goroutines=2", "goroutines=8"},
-		Rule:    "schedules: 2..8 goroutines released together, each hashing its own input with its own instances (fresh or cloned; 1..64 lanes, 1..3 absorbed and 1..2 squeezed blocks) 150 times; every lane = the scalar Curl-P-81 sponge computed beforehand; all non-trivial",
+		Rule:    "schedules: 2..8 goroutines released together, each hashing its own input with its own instances (fresh or cloned; 1..W lanes, 1..3 absorbed and 1..2 squeezed blocks) 150 times; every lane = the scalar Curl-P-81 sponge computed beforehand; all non-trivial",
 	})
 }
 
